@@ -64,6 +64,19 @@ PIntR(s, i, base, acc, seen) ==
        IF ~NumLE(nx, INT64MAX) THEN [v |-> <<>>, code |-> -2, used |-> i - 1]
        ELSE PIntR(s, i + 1, base, nx, TRUE)
 ParsePInt(s, base) == PIntR(s, 1, base, <<0>>, FALSE)
+\* htp_parse_positive_integer_whitespace: LWS, a run of digits of the base, LWS - nothing else
+IsLwsB(b) == b = 32 \/ b = 9
+RECURSIVE SkipLws(_)
+SkipLws(s) == IF s # <<>> /\ IsLwsB(s[1]) THEN SkipLws(Tail(s)) ELSE s
+PIntWs(s, base) == IF s = <<>> THEN [v |-> <<>>, code |-> -1003]
+                   ELSE LET t == SkipLws(s) IN IF t = <<>> THEN [v |-> <<>>, code |-> -1001]
+                   ELSE LET r == ParsePInt(t, base) IN
+                        IF r.code < 0 THEN [v |-> <<>>, code |-> r.code]
+                        ELSE IF SkipLws(SubSeq(t, r.used + 1, Len(t))) # <<>> THEN [v |-> <<>>, code |-> -1002]
+                        ELSE [v |-> r.v, code |-> 0]
+\* htp_parse_status: the decimal value when it is in 100..999, otherwise invalid (-1)
+StatusOf(s) == LET r == PIntWs(s, 10) IN
+               IF r.code < 0 \/ Len(r.v) # 3 THEN -1 ELSE r.v[1] * 100 + r.v[2] * 10 + r.v[3]
 \* htp_parse_content_length: skip everything before the first decimal digit, then a decimal run (junk afterwards is allowed)
 RECURSIVE SkipNonDigits(_)
 SkipNonDigits(s) == IF s # <<>> /\ ~(s[1] >= 48 /\ s[1] <= 57) THEN SkipNonDigits(Tail(s)) ELSE s
